@@ -4,6 +4,7 @@ from .. import e1
 from .. import opseq as E
 from .. import ops as O
 from . import _e1common as X
+from .. import recorder as REC
 
 WANT_STEPS = True
 MODES = ("plain",)
@@ -78,9 +79,12 @@ def run(ctx):
     cfg = e1.standard_configs(ctx)
     extras = e1.sweep(ctx, E.depth1_programs(include_assert=False), cfg, "pv.checks.c05.oracle", modes=MODES)
     from ..recorder import BN128
+    extras += e1.sweep(ctx, E.huge_programs(), [(16, pp, E.huge_lattice(pp)) for pp in ([BN128] if not ctx.thorough else list(REC.REAL_FIELDS.values()))],
+                       "pv.checks.c05.oracle", modes=MODES)
     d2 = X.depth2_family(ctx)
     cfg2 = [(2, BN128, E.D(2)), (3, BN128, E.D(2))] if ctx.thorough else [(3, BN128, E.D(2))]
     extras += e1.sweep(ctx, d2, cfg2, "pv.checks.c05.oracle", modes=MODES)
+    e1.bfs_sweep(ctx, {"wrong-value", "wrong-value-congruent-mod-p", "same-state-different-future"}, ctx.thorough)
     e1.dedupe_violations(ctx)
     ctx.cov["ill_typed_programs_skipped"] = sorted({nm for nm, ex in extras if ex.get("ill_typed")})
     ctx.cov["in_domain_steps_checked"] = sum(ex.get("ok_in_domain", 0) for _, ex in extras)
